@@ -132,6 +132,14 @@ class Env(object):
                 g.must(b'GET (0,0)-(%d,%d),%s%d%%' % (w_ // f - 1, h_ - 1, nm.encode(), bit))
         g.must(b'CLS')
         if g.npages > 1:
+            if apage and pol:
+                # arrive in this mode with the active page already selected: a mode change keeps
+                # the active page number (go through text mode and come back)
+                r = H.run(g.s, b'SCREEN 0,,%d,%d' % (apage, apage))
+                H.run(g.s, b'SCREEN %d' % nr)
+                g.refresh()
+                if g.mode.name != name:
+                    raise CheckError('mode round trip failed')
             g.must(b'SCREEN ,,%d,0' % apage)
         if g.apagenum != apage:
             raise CheckError('active page not set')
